@@ -47,7 +47,12 @@ func messy(r *simrt.Rand, j *Journal) string {
 		b.WriteString(txt)
 		b.WriteString("\n")
 	}
-	return b.String()
+	out := b.String()
+	if r.P(0.2) {
+		// a journal with CRLF line ends
+		out = strings.ReplaceAll(out, "\n", "\r\n")
+	}
+	return out
 }
 
 func (c18) Gen(r *simrt.Rand, idx int, tier string) *Case {
